@@ -227,6 +227,13 @@ fn lstrip_block(s: &str) -> &str {
 }
 
 fn should_lstrip_block(flag: bool, marker: StartMarker, prefix: &str) -> bool {
+    // line statements and line comments always strip their indentation
+    #[cfg(feature = "custom_syntax")]
+    let flag = flag
+        || matches!(
+            marker,
+            StartMarker::LineStatement | StartMarker::LineComment
+        );
     if flag && !matches!(marker, StartMarker::Variable) {
         // Only strip if we're at the start of a line
         for c in prefix.chars().rev() {
@@ -238,15 +245,6 @@ fn should_lstrip_block(flag: bool, marker: StartMarker, prefix: &str) -> bool {
         }
         // If we get here, we're at the start of the file
         return true;
-    }
-    #[cfg(feature = "custom_syntax")]
-    {
-        if matches!(
-            marker,
-            StartMarker::LineStatement | StartMarker::LineComment
-        ) {
-            return true;
-        }
     }
     false
 }
